@@ -251,6 +251,24 @@ theorem sumBytes_le (h : List Nat) (hh : isBytes h) : sumBytes h ≤ 255 * h.len
   have := key h 0 hh
   omega
 
+theorem sumBytes_append (a b : List Nat) : sumBytes (a ++ b) = sumBytes a + sumBytes b := by
+  unfold sumBytes
+  have key : ∀ (l : List Nat) (acc : Nat), l.foldl (· + ·) acc = acc + l.foldl (· + ·) 0 := by
+    intro l
+    induction l with
+    | nil => intro acc; simp
+    | cons c l ih => intro acc; simp only [List.foldl_cons]; rw [ih (acc + c), ih (0 + c)]; omega
+  rw [List.foldl_append, key b]
+
+/-- A block is its three consecutive slices. -/
+theorem split3 (h : List Nat) (a b : Nat) (hab : a + b ≤ h.length) :
+    h = slice h 0 a ++ slice h a b ++ slice h (a + b) (h.length - (a + b)) := by
+  unfold slice
+  have h1 : (h.drop (a + b)).take (h.length - (a + b)) = h.drop (a + b) := by
+    apply List.take_of_length_le; simp only [List.length_drop]; omega
+  have h2 : h.drop (a + b) = (h.drop a).drop b := by rw [List.drop_drop]
+  rw [h1, h2, List.drop_zero, List.append_assoc, List.take_append_drop, List.take_append_drop]
+
 /-! ### fixed-width C strings -/
 
 /-- No NUL byte: a C string. -/
